@@ -1337,7 +1337,35 @@ class _Frame:
             return obj.attrs[attr[2:]]
         if getattr(self.I, "attr_try_depth", 0) > 0 and name.startswith("_") and "__" in name[1:] and name != attr:
             raise XRaise("AttributeError", f"'{obj.cls.name}' object has no attribute '{name}'")
+        hit, v = self._init_literal(obj, name)
+        if hit:
+            obj.attrs[name] = v
+            return v
         raise self.bad(f"attribute {obj.cls.name}.{attr} is not modelled", n)
+
+    def _init_literal(self, obj, name):
+        """a stand-in object (built by a rule without running the constructor) is asked for a private field the rule did not
+        supply: when a constructor of the class hierarchy initialises that field with a LITERAL (an empty container, None, a
+        constant), every real object starts with that value - the stand-in takes it (a fresh one per object)"""
+        if not (name.startswith("_") and "__" in name[1:]):
+            return False, None
+        for ci in [obj.cls] + list(getattr(obj.cls, "mro", []) or []):
+            init = ci.methods.get("__init__") if ci is not None else None
+            if init is None:
+                continue
+            for st in ast.walk(init.node):
+                tg = st.targets[0] if isinstance(st, ast.Assign) and len(st.targets) == 1 else (st.target if isinstance(st, ast.AnnAssign) and st.value is not None else None)
+                if not (isinstance(tg, ast.Attribute) and isinstance(tg.value, ast.Name) and tg.value.id == "self" and ci.mangle(tg.attr) == name):
+                    continue
+                val = st.value
+                if isinstance(val, ast.Dict) and not val.keys:
+                    return True, {}
+                if isinstance(val, (ast.List, ast.Set)) and not val.elts:
+                    return True, [] if isinstance(val, ast.List) else set()
+                if isinstance(val, ast.Constant) and (val.value is None or isinstance(val.value, (bool, int, str))):
+                    return True, val.value
+                return False, None
+        return False, None
 
     @staticmethod
     def _cv_key(ci, attr):
